@@ -36,12 +36,14 @@ type hookSpec struct {
 	Signer string // label of the signing key
 	Seq    uint64 // account sequence the payload was signed with
 	Sends  []hookSend
+	// Withdraw: the payload's message is an L2 withdrawal by the signer (class "wdhook")
+	Withdraw *opchildtypes.MsgInitiateTokenWithdrawal
 }
 
 // authenticates: the payload decodes and carries a valid signature (so the
 // signer's account sequence is consumed if the sequence matches).
 func (h *hookSpec) authenticates() bool {
-	return h.Class == "good" || h.Class == "failmsg" || h.Class == "hungry" || h.Class == "unrouted"
+	return h.Class == "good" || h.Class == "failmsg" || h.Class == "hungry" || h.Class == "unrouted" || h.Class == "wdhook"
 }
 
 type hookSend struct {
@@ -262,6 +264,24 @@ func (m *modelL2) stepDeposit(x *opchildtypes.MsgFinalizeTokenDeposit, bc blockC
 			if m.SeqUnsure[hs.Signer] || hs.Seq != m.AcctSeq[hs.Signer] || m.evalGoodHook(hs, to, x.Amount) == triNo {
 				expect = triNo
 			}
+		case hs.Class == "wdhook":
+			expect = triNo
+			if !m.SeqUnsure[hs.Signer] && hs.Seq == m.AcctSeq[hs.Signer] {
+				// the denom pair of this deposit is registered before the hook runs
+				sc := m.clone()
+				if _, ok := sc.Pairs[x.Amount.Denom]; !ok {
+					sc.Pairs[x.Amount.Denom] = x.BaseDenom
+				}
+				if x.Amount.IsPositive() {
+					sc.Bal.add(to, x.Amount.Denom, x.Amount.Amount.BigInt())
+				}
+				if so := sc.stepWithdraw(hs.Withdraw, bc); so.P.Kind == mustSucceed {
+					expect = triYes
+					if m.Params.HookMaxGas < 300_000 {
+						expect = triBand
+					}
+				}
+			}
 		case hs.Class != "good":
 			expect = triNo
 		case m.SeqUnsure[hs.Signer]:
@@ -298,7 +318,11 @@ func (m *modelL2) stepDeposit(x *opchildtypes.MsgFinalizeTokenDeposit, bc blockC
 			"denom": x.Amount.Denom, "base_denom": x.BaseDenom, "amount": x.Amount.Amount.String(), "finalize_height": strconv.FormatUint(x.Height, 10)}, "l2deposit.event", own)...)
 		wevs := attrsOf(res, "initiate_token_withdrawal")
 		credited := evs[0]["success"] == "true"
-		if credited && len(wevs) != 0 {
+		hookWd := 0
+		if credited && hookRuns && hs != nil && hs.Class == "wdhook" {
+			hookWd = 1 // the withdrawal the hook itself performed (checked below)
+		}
+		if credited && len(wevs) != hookWd {
 			out = append(out, mm("l2deposit.mixed-outcome", "credit-and-refund", own, "deposit %d reports success but also recorded %d refund withdrawal(s)", seq, len(wevs)))
 			return out
 		}
@@ -328,6 +352,17 @@ func (m *modelL2) stepDeposit(x *opchildtypes.MsgFinalizeTokenDeposit, bc blockC
 				m.Bal.add(to, x.Amount.Denom, amt)
 				m.supplyAdd(x.Amount.Denom, amt)
 				bump(m.Credited, x.Amount.Denom, amt)
+			}
+			if hookRuns && hs != nil && hs.Class == "wdhook" {
+				// a withdrawal performed by a hook is a recorded withdrawal like any other: burnt, sequenced, announced
+				so := m.stepWithdraw(hs.Withdraw, bc)
+				if so.OnSuccess != nil {
+					for _, z := range so.OnSuccess(&txRes{OK: true, Events: res.Events}) {
+						z.Key = "hook-withdrawal-not-announced"
+						z.Owners = []string{"C09", "C08", "C04", "C07"}
+						out = append(out, z)
+					}
+				}
 			}
 			if hookRuns && hs != nil && (hs.Class == "good" || hs.Class == "hungry") {
 				signer := []byte(keyAddrOf(hs.Signer))
